@@ -100,9 +100,10 @@ def directed() -> List[Dict[str, Any]]:
         for role in ("create", "recv"):
             for n in (1, 2):
                 for fail in ([], [0], [0, 1]):
-                    D.append({"budget": 5, "nv": nv, "transpile": tr, "events": [
-                        {"a": "keep", "role": role, "hs": list(range(1, n + 1)), "fid": 80, "fail": fail}, {"a": "flush"},
-                        {"a": "measD", "h": 1}, {"a": "flush"}]})
+                    for fid in (80, 100) if (n == 1 and len(fail) < 2) else (80,):        # (100: the largest value the parameter takes)
+                        D.append({"budget": 5, "nv": nv, "transpile": tr, "events": [
+                            {"a": "keep", "role": role, "hs": list(range(1, n + 1)), "fid": fid, "fail": fail}, {"a": "flush"},
+                            {"a": "measD", "h": 1}, {"a": "flush"}]})
     # the body of a sequential post routine / context works on another live qubit before AND after the pair's qubit
     for nv, tr in ((False, False), (True, False), (True, True)):
         for role in ("create", "recv"):
